@@ -27,7 +27,7 @@ CLAIMED = {
   technique="TLA+ spec (EntryOrder.tla, safety + liveness) model-checked with TLC + replay of its states + trace validation (EntryOrderTrace.tla)",
   design="5 C03"),
  "C15": dict(
-  text="EntryOrder.tla (refs): for every reference graph on 4 entries (forward, backward, self, chains, cycles), every key order, sorted and unsorted, positions are assigned after the final sort and before columns are sized and written: RefsAreFinal, HandlesAreFinal (the variant SizeBeforeAssign=TRUE violates them, shown by the self-test). Every such state and seeded stores of 2..5000 (quick) / 70000 (thorough) entries with references in common and variant parts run through the real creator; EntryOrderTrace.tla accepts only if the handles are a permutation, the entry read at Handle(i) is entry i and its reference column holds Handle(target).",
+  text="EntryOrder.tla (refs): for every reference graph on 4 entries (forward, backward, self, chains, cycles), every key order, sorted and unsorted, positions are assigned after the final sort and before columns are sized and written: RefsAreFinal, HandlesAreFinal (the variant SizeBeforeAssign=TRUE violates them, shown by the self-test). Every such state and seeded stores of 2..5000 (quick) / 70000 (thorough) entries with references in common and variant parts, in unsigned and in signed columns (lazy words of both kinds), run through the real creator; EntryOrderTrace.tla accepts only if the handles are a permutation, the entry read at Handle(i) is entry i and its reference column holds Handle(target).",
   note="Trusted: TLC; positions come from Bound::get() after finalisation, values from the public reader.",
   technique="TLA+ spec (EntryOrder.tla refs machine) model-checked with TLC + replay + trace validation (EntryOrderTrace.tla)",
   design="5 C15"),
@@ -37,12 +37,12 @@ CLAIMED = {
   technique="TLA+ spec (ClusterPipeline.tla, safety + liveness over all schedules) model-checked with TLC + trace validation of perturbed real runs (ClusterPipelineTrace.tla, ContentPackTrace.tla)",
   design="5 C08"),
  "C10": dict(
-  text="Packaging.tla: packs are identities held by files (container or single), the manifest records locations, the reader resolves a pack inside the entry-point file first, then at its recorded location, identity deciding. TLC explores every packaging mode, concat of every subset of files, prefix embedding, removals / replacements / relocations (27k states) and checks SameLogicalContent, IdentityIsUuid, MissingIsReported, PresentStillReads (the pinned locator, modelled as PinnedLocate, violates them). Every configuration is produced with the real creator and tools (3 packagings, concat in every order and of every subset containing the entry point, prefixes of 1/63/64/4096 bytes in front of the entry file and in front of every pack file reached through its recorded location, 0-2 extra content packs), dumped through reader::Container and compared item by item with the logical container; PackagingTrace.tla accepts only the resolutions Locate allows, an empty diff and a true check. An extra stage replays seeded end-to-end histories against the root module Jubako.tla (ReadIsLogicalOrReported: whatever the history, every pack reads as its logical content, is reported missing, or reports an error / fails the check).",
+  text="Packaging.tla: packs are identities held by files (container or single), the manifest records locations, the reader resolves a pack inside the entry-point file first, then at its recorded location, identity deciding. TLC explores every packaging mode, concat of every subset of files, prefix embedding, removals / replacements / relocations (27k states) and checks SameLogicalContent, IdentityIsUuid, MissingIsReported, PresentStillReads (the pinned locator, modelled as PinnedLocate, violates them). Every configuration is produced with the real creator and tools (3 packagings, concat in every order and of every subset containing the entry point, prefixes of 1/63/64/4096 bytes in front of the entry file and in front of every pack file reached through its recorded location, stale files (truncated, empty, junk) at the recorded locations of packs that are inside the concatenated file, 0-2 extra content packs), dumped through reader::Container and compared item by item with the logical container; PackagingTrace.tla accepts only the resolutions Locate allows, an empty diff and a true check. An extra stage replays seeded end-to-end histories against the root module Jubako.tla (ReadIsLogicalOrReported: whatever the history, every pack reads as its logical content, is reported missing, or reports an error / fails the check).",
   note="Trusted: TLC, tools/jbkdec.py for which file holds which pack identity, the expected logical dump computed from the scenario alone.",
   technique="TLA+ spec (Packaging.tla) model-checked with TLC + exhaustive replay of the configuration space through the real code + trace validation (PackagingTrace.tla)",
   design="5 C10"),
  "C11": dict(
-  text="Same specification as C10; configurations are containers with 3 content packs in every packaging where each content-pack file is independently kept, removed, replaced by a directory or replaced by a different valid pack (all 4^k combinations in thorough). For each, every entry and every content is read: PackagingTrace.tla requires 'missing' with that pack's uuid and recorded location (also through get_bytes) exactly for the packs Locate cannot find by identity, 'found' with the original bytes for the others, an empty diff on everything available and a true container check.",
+  text="Same specification as C10; configurations are containers with 3 content packs in every packaging (pack ids 1..n and sparse ids such as {1,3,9}) where each content-pack file is independently kept, removed, replaced by a directory or replaced by a different valid pack (all 4^k combinations in thorough). For each, every entry and every content is read: PackagingTrace.tla requires 'missing' with that pack's uuid and recorded location (also through get_bytes) exactly for the packs Locate cannot find by identity, 'found' with the original bytes for the others, an empty diff on everything available and a true container check.",
   note="Trusted as C10. The foreign pack is a valid content pack of another container created the same way.",
   technique="TLA+ spec (Packaging.tla) model-checked with TLC + exhaustive fault-configuration replay + trace validation (PackagingTrace.tla)",
   design="5 C11"),
@@ -52,7 +52,7 @@ CLAIMED = {
   technique="TLA+ spec (Packaging.tla SetLocation) + trace validation of rewrite histories (PackagingTrace.tla) with an independent byte-level oracle",
   design="5 C12"),
  "C13": dict(
-  text="Views.tla gives every public view operation (cut on regions and slices, as_slice, slice->region, stream(), From<ByteRegion> for ByteStream, read with any buffer size incl. short reads, get_slice) its denotation as a range of the content plus cursor; TLC checks Nested, Sizes, ConversionsAgree, ObsInside, ReadsTile on every behaviour over contents of length 4-6 with up to 4 views (370k states). TLC-simulated behaviours of 9 operations (nesting to depth 3+, all conversions, read partitions) are scaled to the real length and replayed on seven source kinds reached through the public API (in-memory pack, file region of a raw cluster, clusters decoded in the background by zstd / lz4 / lzma, reader::Container, entry bytes in a small buffer and in an mmap >= 4 KiB), none at offset 0 of its source; ViewsTrace.tla accepts a step only if the returned bytes are exactly the denoted range (located in the position-coded content) and size(), offset(), size_left() agree with it.",
+  text="Views.tla gives every public view operation (cut on regions and slices, as_slice, slice->region, stream(), From<ByteRegion> for ByteStream, read with any buffer size incl. short reads, get_slice) its denotation as a range of the content plus cursor; TLC checks Nested, Sizes, ConversionsAgree, ObsInside, ReadsTile on every behaviour over contents of length 4-6 with up to 4 views (370k states). TLC-simulated behaviours of 9 operations (nesting to depth 3+, all conversions, read partitions), plus hand-written interleavings of accesses through several views at distances of 2 and 4 units, are scaled to the real length and replayed on seven source kinds reached through the public API (in-memory pack, file region of a raw cluster, clusters decoded in the background by zstd / lz4 / lzma, reader::Container, entry bytes in a small buffer and in an mmap >= 4 KiB), none at offset 0 of its source; ViewsTrace.tla accepts a step only if the returned bytes are exactly the denoted range (located in the position-coded content) and size(), offset(), size_left() agree with it.",
   note="Trusted: TLC; the orchestrator's search of the returned bytes in the expected content. Out-of-range arguments (API misuse) are not exercised.",
   technique="TLA+ spec (Views.tla) model-checked with TLC + TLC-simulated behaviours replayed through the real API on all source kinds + trace validation (ViewsTrace.tla)",
   design="5 C13"),
@@ -67,12 +67,12 @@ CLAIMED = {
   technique="TLA+ spec (Integrity.tla) model-checked with TLC + exhaustive single-byte fault enumeration with full logical dump comparison + trace validation (IntegrityTrace.tla)",
   design="5 C05"),
  "C06": dict(
-  text="Integrity.tla OutcomeIsValueOrError / TruncationIsError give the guards (every cut inside its source, short reads are errors, the tail lookup needs 64 bytes, decoder errors reach the readers). Real containers of every compression and packaging are damaged at every byte position (x masks), truncated at every length, extended with garbage and replaced by non-jubako files of 0..70+ bytes; every case is opened and fully dumped by a case server in debug and release builds; a panic, abort, signal or timeout is data, re-run alone in a fresh process before it is attributed. IntegrityTrace.tla (Prop=C06) accepts only value / error outcomes.",
+  text="Integrity.tla OutcomeIsValueOrError / TruncationIsError give the guards (every cut inside its source, short reads are errors, the tail lookup needs 64 bytes, decoder errors reach the readers). Real containers of every compression and packaging are damaged at every byte position (x masks), truncated at every length, extended with garbage and replaced by non-jubako files of 0..70+ bytes; every case is opened through reader::Container and fully dumped, and the damaged file is also opened directly by every pack reader over the whole file (tools::open_pack, DirectoryPack::new, ContentPack::new, ManifestPack::new) and read through, by a case server in debug and release builds; a panic, abort, signal or timeout is data, re-run alone in a fresh process before it is attributed. IntegrityTrace.tla (Prop=C06) accepts only value / error outcomes.",
   note="Storage and transfer damage only (CRC-valid forged fields are outside the claim). Hang detection: 30 s alone for a case that normally takes < 1 ms.",
   technique="TLA+ spec (Integrity.tla) + exhaustive fault / truncation enumeration through a crash-supervised case server in both build profiles + trace validation (IntegrityTrace.tla)",
   design="5 C06"),
  "C09": dict(
-  text="AtomicCreate.tla: the creator's steps (create temp in the destination directory, write, finish, rename) for the outputs of each packaging in the order BasicCreator persists them, with a crash or an I/O error possible between any two steps, with and without a previous file: DestAllOrNothing, EntryPointLast, NoPartialAtDest on all 12 configurations (the defect variants WriteInPlace / EntryFirst violate them). The real BasicCreator runs in a child process: once under strace (AtomicCreateTrace.tla rejects a destination opened for writing, truncation or creation, and an entry point renamed before the files it names), then killed (SIGXFSZ, SIGKILL) or made to fail (EFBIG, ENOSPC) at every write-size limit (quick: write boundaries +-1, thorough: every byte) and at every k-th write/rename/open system call; after each run every destination is classified by really opening it (independent decoder: all CRCs and hashes; library: full dump equals the logical container) and must be absent, the previous file or complete, a new entry point implying complete referenced files.",
+  text="AtomicCreate.tla: the creator's steps (create temp in the destination directory, write, finish, rename) for the outputs of each packaging in the order BasicCreator persists them, with a crash or an I/O error possible between any two steps, with and without a previous file: DestAllOrNothing, EntryPointLast, NoPartialAtDest on all 12 configurations (the defect variants WriteInPlace / EntryFirst violate them). The real BasicCreator runs in a child process: once under strace (AtomicCreateTrace.tla rejects a destination opened for writing, truncation or creation, and an entry point renamed before the files it names), then killed (SIGXFSZ, SIGKILL) or made to fail (EFBIG, ENOSPC) at every write-size limit (quick: write boundaries +-1, thorough: every byte) at every k-th write/rename/open system call (kill) and with an error returned once by every single write / rename call (both tiers); after each run every destination is classified by really opening it (independent decoder: all CRCs and hashes; library: full dump equals the logical container) and must be absent, the previous file or complete, a new entry point implying complete referenced files.",
   note="Crash = process termination, not power loss. Temporary files left behind are allowed. strace counts invocations per thread: a k can be shadowed by another thread; the write-size limit variant is per byte.",
   technique="TLA+ spec (AtomicCreate.tla) model-checked with TLC + strace-recorded file-system protocol and exhaustive crash / I/O-error injection on the real creator + trace validation (AtomicCreateTrace.tla)",
   design="5 C09"),
